@@ -488,7 +488,7 @@ func runC06(c *Ctx) {
 		l := cs.Prog.render(r.Fork(), c06RandOpt(r))
 		var cand []lMark
 		for _, m := range l.marks {
-			if m.Index >= 1 && m.Parent >= 0 {
+			if m.Own && m.Parent >= 0 {
 				cand = append(cand, m)
 			}
 		}
@@ -511,6 +511,9 @@ func runC06(c *Ctx) {
 		}
 		fcSame := ok && out == cs.Out
 		stat := "negative:fc-rejects"
+		if strings.Contains(rk.Err, "Overrun offside rule") {
+			stat = "negative:fc-rejects-overrun"
+		}
 		if ok {
 			stat = "negative:fc-different-output"
 		}
@@ -661,7 +664,7 @@ func runC06(c *Ctx) {
 		// one dedented variant through the real process: a diagnostic (exit 1) or output, never a crash
 		var cand []lMark
 		for _, m := range l.marks {
-			if m.Index >= 1 && m.Parent >= 0 {
+			if m.Own && m.Parent >= 0 {
 				cand = append(cand, m)
 			}
 		}
